@@ -536,6 +536,13 @@ func (s *ReverseInnerSearcher) IsMatch(haystack []byte) bool {
 		if pos == 0 && (s.universalPrefix || s.startAnchored) {
 			// Universal prefix (.*) or start anchor (^) matches at position 0
 			prefixMatches = true
+		} else if pos == 0 {
+			// Nothing lies before the literal: the prefix has to match the empty
+			// string, which the reverse scan cannot tell (it has no input). Any
+			// other nullable prefix (.*x* in .*x*bar.) lands here; let the full
+			// pattern decide, as Find does.
+			_, _, matched := s.pikevm.Search(haystack)
+			return matched
 		} else if pos > 0 {
 			// Use SearchReverseLimited for anti-quadratic protection
 			revResult := s.reverseDFA.SearchReverseLimited(revCache, haystack, 0, pos, minStart)
